@@ -78,6 +78,8 @@ class Contract:
         self.covers = True
         self.allocs = {}
         self.fresh_result = None
+        self.decreases = None
+        self.hints = []
 
     @property
     def key(self):
@@ -164,6 +166,10 @@ def load_file(path, modname):
                 c.types = _dict_of(val, _lit)
             elif nm == "ghosts":
                 c.ghosts = _dict_of(val, _lit)
+            elif nm == "decreases":
+                c.decreases = _lam(val)
+            elif nm == "hints":
+                c.hints = [_lam(e) for e in val.elts]
             elif nm == "requires":
                 c.requires = _lam(val)
             elif nm == "ensures":
